@@ -27,7 +27,7 @@ def kwargs_of(call):
 
 
 # ------------------------------------------------------------------------------------------------- state facts (C14)
-@target("stateFacts", "Facts", ["C14", "C13", "C05"])
+@target("stateFacts", "Facts", ["C14", "C13", "C05", "C02"])
 def _state():
     out = []
     # GenericListTransformer.fit resets the list before appending
@@ -423,7 +423,7 @@ def _step_order(fn, var_prefix):
     return [s for _, s in sorted(steps)]
 
 
-@target("flowFacts", "Facts", ["C01", "C03", "C04", "C10", "C11", "C16"])
+@target("flowFacts", "Facts", ["C01", "C03", "C04", "C05", "C09", "C10", "C11", "C16"])
 def _flow():
     out = []
     # Hilbert transform: the mean of the imaginary part is removed per feature (axis 0 = samples)
@@ -437,6 +437,12 @@ def _flow():
     args = ", ".join([ast.unparse(a) for a in call.args] + [f"{k.arg}={ast.unparse(k.value)}" for k in call.keywords])
     out += [f"/-- {header(path, '_hilbert_transform_with_padding', src, fn)}: arguments of the mean that re-centres the imaginary part (`{means[0]}`) -/",
             f"def hilbertRecentreMeanArgs : String := {lean_str(args)}"]
+    # … as a top-level statement (for every padding mode) placed after the padded part has been cut away
+    top = [i for i, st in enumerate(fn.body) if isinstance(st, ast.Assign) and ".imag.mean" in ast.unparse(st.value)]
+    cuts = [i for i, st in enumerate(fn.body) if isinstance(st, ast.If) and "n_samples:2 * n_samples" in ast.unparse(st).replace(" : ", ":")]
+    ok = len(top) == 1 and len(cuts) == 1 and cuts[0] < top[0]
+    out += ["/-- the re-centring is unconditional and follows the removal of the padding -/",
+            f"def hilbertRecentreAfterCutUnconditional : Bool := {'true' if ok else 'false'}"]
     # PCA.inverse_transform_data multiplies with the conjugate transpose of V
     path = "preprocessing/pca.py"
     src, tree = load(path)
@@ -466,4 +472,22 @@ def _flow():
         steps = _step_order(tf, prefix)
         out += [f"/-- {header(path, qual + ' transform', src, tf)}: order of the steps applied to the projected scores -/",
                 f"def {nm}TransformSteps : List String := [{', '.join(lean_str(x) for x in steps)}]"]
+    # cross-set transform / inverse_transform: each field goes through ITS OWN preprocessor, PCA and whitener
+    import re as _re
+    path = "cross/base_model_cross_set.py"
+    src, tree = load(path)
+    for meth, nm in (("BaseModelCrossSet.transform", "crossTransform"), ("BaseModelCrossSet.inverse_transform", "crossInverse")):
+        fn = find_func(tree, meth)
+        used = {"X": set(), "Y": set()}
+        for n in ast.walk(fn):
+            if isinstance(n, ast.If):
+                t = ast.unparse(n.test)
+                fld = "X" if t in ("X is not None", "x_is_given") else ("Y" if t in ("Y is not None", "y_is_given") else None)
+                if fld:
+                    used[fld] |= set(_re.findall(r"self\.((?:preprocessor|pca|whitener)\d)", ast.unparse(n)))
+        if not used["X"] or not used["Y"]:
+            raise TranslationError(meth + ": per-field blocks not found")
+        out += [f"/-- {header(path, meth, src, fn)}: transformer objects used in the block of each field -/",
+                f"def {nm}ObjectsX : List String := [{', '.join(lean_str(x) for x in sorted(used['X']))}]",
+                f"def {nm}ObjectsY : List String := [{', '.join(lean_str(x) for x in sorted(used['Y']))}]"]
     return "\n".join(out) + "\n"
